@@ -286,12 +286,22 @@ func stripChainReturnValue(top, parent *valueProperty, this_ propertySet, key in
 	}
 	if this.key == key {
 		// caller ensures that this != top/parent
-		parent.chain = this.chain
-		this.chain = nil
-		return this.val, top
+		// Links may be shared with by-value copies of the owner, so rebuild
+		// the links above the one being removed instead of editing in place.
+		return this.val, copyChainWithout(top, this)
 	}
 	if this.chain == nil || this.chain == noProperty {
 		return nil, top
 	}
 	return stripChainReturnValue(top, this, this.chain, key)
+}
+
+// copyChainWithout returns a copy of the chain starting at top, omitting the
+// link drop (which must be below top); links below drop are shared.
+func copyChainWithout(top, drop *valueProperty) propertySet {
+	if top == drop {
+		return drop.chain
+	}
+	next, _ := top.chain.(*valueProperty)
+	return &valueProperty{copyChainWithout(next, drop), top.key, top.val}
 }
